@@ -84,6 +84,7 @@ func runWatch(raw json.RawMessage) (interface{}, error) {
 		var rep struct {
 			Table      json.RawMessage `json:"table"`
 			Registered json.RawMessage `json:"registered"`
+			Started    *bool           `json:"started"`
 			Error      string          `json:"error"`
 		}
 		if err := json.Unmarshal(reply, &rep); err != nil || rep.Error != "" {
@@ -91,6 +92,9 @@ func runWatch(raw json.RawMessage) (interface{}, error) {
 		}
 		step["table"] = rep.Table
 		step["registered"] = rep.Registered
+		if rep.Started != nil {
+			step["started"] = *rep.Started
+		}
 		steps = append(steps, step)
 	}
 	return finish()
